@@ -25,19 +25,6 @@ instance (ops : List Op) : Decidable (Differs ops) := by unfold Differs; infer_i
 
 theorem refutes {ops : List Op} (h : Differs ops) : ¬ C18_full := fun hf => h (hf H0 0 ops)
 
-/-- fs:put-into-missing-bucket -/
-theorem C18_counterexample_put_into_missing_bucket : Differs [.putObject bka kA [1] none {} none] := by decide
-
-/-- fs:stale-metadata-after-overwrite -/
-theorem C18_counterexample_stale_metadata_after_overwrite :
-    Differs [.createBucket bka, .putObject bka kA [1] mdV {} none, .putObject bka kA [2] none {} none,
-      .getObject bka kA none] := by decide
-
-/-- fs:metadata-survives-delete -/
-theorem C18_counterexample_metadata_survives_delete :
-    Differs [.createBucket bka, .putObject bka kA [1] mdV {} none, .deleteObject bka kA,
-      .putObject bka kA [2] none {} none, .getObject bka kA none] := by decide
-
 /-- fs:delete-nonempty-bucket -/
 theorem C18_counterexample_delete_nonempty_bucket :
     Differs [.createBucket bka, .putObject bka kA [1] none {} none, .deleteBucket bka] := by decide
@@ -54,21 +41,6 @@ theorem C18_counterexample_delete_missing_key : Differs [.createBucket bka, .del
 
 /-- fs:missing-bucket-reported-as-missing-key -/
 theorem C18_counterexample_missing_bucket_code : Differs [.getObject bka kA none] := by decide
-
-/-- fs:suffix-range-longer-than-object -/
-theorem C18_counterexample_suffix_range_longer :
-    Differs [.createBucket bka, .putObject bka kA [1, 2] none {} none, .getObject bka kA (some (.suffix 3))] := by decide
-
-/-- fs:suffix-range-huge-panics -/
-theorem C18_counterexample_suffix_range_huge :
-    Differs [.createBucket bka, .putObject bka kA [1, 2] none {} none,
-      .getObject bka kA (some (.suffix 18446744073709551615))] := by decide
-
-/-- fs:copy-onto-itself-destroys-object: the copy is accepted, the object is then empty and unreadable -/
-theorem C18_counterexample_copy_onto_itself :
-    (run H0 0 {} [.createBucket bka, .putObject bka kA [1, 2] mdV {} none, .copyObject bka kA bka kA,
-      .getObject bka kA none]).2 =
-      [.ok, .put (some (etagOf H0 [1, 2])) {}, .copied (some (etagOf H0 [])), .err .InternalError] := by decide
 
 /-- fs:stale-metadata-after-copy -/
 theorem C18_counterexample_stale_metadata_after_copy :
@@ -102,10 +74,6 @@ theorem C18_counterexample_leftover_directory :
 theorem C18_counterexample_delete_objects_omits :
     Differs [.createBucket bka, .putObject bka kA [1] none {} none, .deleteObjects bka [kA, kB]] := by decide
 
-/-- fs:create-upload-not-validated -/
-theorem C18_counterexample_create_upload_not_validated :
-    Differs [.createMultipartUpload alice bka kA none] := by decide
-
 /-- fs:unknown-upload-code -/
 theorem C18_counterexample_unknown_upload_code :
     Differs [.createBucket bka, .uploadPart alice bka kA (some 1) 1 [1]] := by decide
@@ -136,7 +104,48 @@ theorem C18_counterexample_complete_missing_part :
     Differs [.createBucket bka, .createMultipartUpload alice bka kA none,
       .completeMultipartUpload alice bka kA (some 1) (some [some 1])] := by decide
 
+/-! ## repaired: histories that were counterexamples before the repairs and on which the model now agrees with the store
+
+(1d0f501 put_object / create_multipart_upload require the bucket; b01fec8 put_object without metadata removes the old
+metadata file; ca1e912 copy onto itself keeps the object; b89afe2 ranged reads: covered for all ranges by
+`C18_get_refines_partial` and `C18_range_check`, the kernel cannot evaluate the decimal formatter of `Content-Range`) -/
+
+/-- answers agree on this history -/
+def Same (ops : List Op) : Prop := (run H0 0 {} ops).2 = (StoreSpec.run H0 {} ops).2
+
+instance (ops : List Op) : Decidable (Same ops) := by unfold Same; infer_instance
+
+/-- was fs:put-into-missing-bucket -/
+theorem C18_fixed_put_into_missing_bucket : Same [.putObject bka kA [1] none {} none, .listBuckets] := by decide
+
+/-- was fs:create-upload-not-validated -/
+theorem C18_fixed_create_upload_not_validated :
+    Same [.createMultipartUpload alice bka kA none, .createBucket bka, .createMultipartUpload alice bka [46, 46] none] := by
+  decide
+
+/-- was fs:stale-metadata-after-overwrite -/
+theorem C18_fixed_stale_metadata_after_overwrite :
+    Same [.createBucket bka, .putObject bka kA [1] mdV {} none, .putObject bka kA [2] none {} none,
+      .getObject bka kA none] := by decide
+
+/-- was fs:metadata-survives-delete -/
+theorem C18_fixed_metadata_survives_delete :
+    Same [.createBucket bka, .putObject bka kA [1] mdV {} none, .deleteObject bka kA,
+      .putObject bka kA [2] none {} none, .getObject bka kA none] := by decide
+
+/-- was fs:copy-onto-itself-destroys-object -/
+theorem C18_fixed_copy_onto_itself :
+    Same [.createBucket bka, .putObject bka kA [1, 2] mdV {} none, .copyObject bka kA bka kA,
+      .getObject bka kA none] := by decide
+
+/-- was fs:suffix-range-longer-than-object / fs:suffix-range-huge-panics: the model no longer fails or panics (the answer
+    itself is compared by `C18_get_refines_partial`) -/
+theorem C18_fixed_suffix_ranges :
+    (run H0 0 {} [.createBucket bka, .putObject bka kA [1, 2] none {} none, .getObject bka kA (some (.suffix 3)),
+      .getObject bka kA (some (.suffix 18446744073709551615))]).2.all
+      (fun r => r != .panic && r != .err .InternalError) = true := by decide
+
 /-- the unrestricted statement is false of the model (hence, by the correspondence runs, of the backend) -/
-theorem C18_full_false : ¬ C18_full := refutes C18_counterexample_put_into_missing_bucket
+theorem C18_full_false : ¬ C18_full := refutes C18_counterexample_delete_nonempty_bucket
 
 end S3V.C18
